@@ -76,9 +76,27 @@ func zzSnapOpts(o *Options) string {
 	return s + ";algo=" + string(rune('0'+int(o.PaginationAlgo))) + ";flags=" + string(rune('0'+fl/10)) + string(rune('0'+fl%10))
 }
 
-var zzURLs = []string{"http://h.t/a?page=2", "http://h.t/story/2/", "https://h.t/dir/page.html#frag", "http://h.t", "/relative/only/", "//h.t/story/2", "page.html?p=2"}
+var zzURLs = []string{"http://h.t/a?page=2", "http://h.t/story/2/", "https://h.t/dir/page.html#frag", "http://h.t", "/relative/only/", "//h.t/story/2", "page.html?p=2", "http://user:pw@h.t/a/b?page=2"}
 
-func zzOpts() (*Options, *nurl.URL) {
+func zzOpts() (*Options, *nurl.URL) { return zzOptsOf(false) }
+
+// zzOptsOf(small): the reduced menu (no flags or everything; no URL, a plain
+// one, one with userinfo) used where another dimension is being swept
+func zzOptsOf(small bool) (*Options, *nurl.URL) {
+	if small {
+		o := &Options{}
+		o.LogFlags = []LogFlag{0, LogEverything}[vx.Choose("flags", 2)]
+		o.SkipPagination = vx.NondetBool("skip")
+		if vx.NondetBool("algo") {
+			o.PaginationAlgo = PageNumber
+		}
+		var u *nurl.URL
+		if k := vx.Choose("url", 3); k > 0 {
+			u, _ = nurl.Parse([]string{zzURLs[0], zzURLs[len(zzURLs)-1]}[k-1])
+			o.OriginalURL = u
+		}
+		return o, u
+	}
 	if vx.Choose("optsnil", 4) == 0 {
 		return nil, nil
 	}
@@ -112,15 +130,24 @@ func HarnessC10Apply() {
 	page := vx.Pages[vx.Choose("page", len(vx.Pages))]
 	doc := vx.ParseHTML(page)
 	root := doc
-	switch vx.Choose("root", 4) {
+	rootKind := vx.Choose("root", 6)
+	switch rootKind {
 	case 1:
 		root = dom.QuerySelector(doc, "html")
 	case 2:
 		root = dom.QuerySelector(doc, "body")
 	case 3:
 		root = dom.QuerySelector(doc, "body > div, body > table")
+	case 4: // an inline element deep inside the tree: a javascript: anchor, else a link
+		root = dom.QuerySelector(doc, `a[href^="javascript:"]`)
+		if root == nil {
+			root = dom.QuerySelector(doc, "p a, div a")
+		}
+	case 5: // a structural inner element
+		root = dom.QuerySelector(doc, "figure, td, li, p")
 	}
-	opts, u := zzOpts()
+	vx.Assume(root != nil)
+	opts, u := zzOptsOf(rootKind >= 4)
 	t0, o0, u0 := zzSnapTree(doc), zzSnapOpts(opts), zzSnapURL(u)
 	if opts != nil {
 		vx.Freeze(doc, opts, u)
